@@ -24,7 +24,7 @@ def jobs(tier):
     # closed-form size arithmetic, every n (types: INTE 0 REAL 1 DOUB 2 CHAR 3 LOGI 4 C0NN 6)
     for t, tn in ((0, 'inte'), (1, 'real'), (2, 'doub'), (3, 'char'), (4, 'logi')):
         out.append(dict(name='size_%s' % tn, src='h_size.cpp', defs={'ARRT': t}, entry='h_size_bin,h_size_fmt', tus=['opm/io/eclipse/EclUtil.cpp'], fp='real', bounds='every n < 2^40 (binary) / < 2^31 (formatted)'))
-    for es in ((9, 16, 40, 77) if tier == 'quick' else (9, 10, 11, 12, 16, 24, 32, 40, 64, 77, 99)):
+    for es in ((9, 16, 40, 77, 99) if tier == 'quick' else (9, 10, 11, 12, 16, 24, 32, 40, 64, 77, 99)):
         out.append(dict(name='size_c0nn_%d' % es, src='h_size.cpp', defs={'ARRT': 6, 'ELSZ': es}, entry='h_size_bin,h_size_fmt', tus=['opm/io/eclipse/EclUtil.cpp'], fp='real', bounds='C0NN element size %d, every n' % es))
     out.append(dict(name='size_misc', src='h_size.cpp', defs={}, entry='h_size_mess,h_combine,h_flip', tus=['opm/io/eclipse/EclUtil.cpp'], fp='real'))
     # formatted writer / readers: text layout, column and block breaks (values concrete for INTE, symbolic flags / characters for LOGI / CHAR)
@@ -32,7 +32,7 @@ def jobs(tier):
         out.append(dict(name='fmt_inte_n%d' % n, src='h_eclfmt.cpp', defs={'NELEM': n}, entry='h_fmt_inte', tus=TUS, fp='real', loopmax=40000, maxsteps=20000000, partial_sites=(n == 0), bounds='n=%d, fixed value pattern incl. INT_MIN/INT_MAX' % n))
     for n in ((0, 25, 26, 1001) if tier == 'quick' else (0, 1, 24, 25, 26, 50, 1000, 1001, 1026)):
         out.append(dict(name='fmt_logi_n%d' % n, src='h_eclfmt.cpp', defs={'NELEM': n}, entry='h_fmt_logi', tus=TUS, fp='real', loopmax=40000, maxsteps=20000000, partial_sites=(n == 0), bounds='n=%d, first/last/1000th element symbolic' % n))
-    for n, es in (((0, 8), (7, 8), (8, 8), (113, 8), (112, 9), (110, 14), (4, 16)) if tier == 'quick' else ((0, 8), (1, 8), (7, 8), (8, 8), (105, 8), (106, 8), (113, 8), (211, 8), (106, 9), (112, 9), (212, 9), (107, 14), (110, 14), (4, 16), (109, 24), (5, 77), (107, 77))):
+    for n, es in (((0, 8), (7, 8), (8, 8), (113, 8), (112, 9), (110, 14), (4, 16), (3, 99)) if tier == 'quick' else ((0, 8), (1, 8), (7, 8), (8, 8), (105, 8), (106, 8), (113, 8), (211, 8), (106, 9), (112, 9), (212, 9), (107, 14), (110, 14), (4, 16), (109, 24), (5, 77), (107, 77), (3, 78), (3, 99), (107, 99))):
         out.append(dict(name='fmt_char_n%d_e%d' % (n, es), src='h_eclfmt.cpp', defs={'NELEM': n, 'ELSZ': es}, entry='h_fmt_char', tus=TUS, fp='real', loopmax=40000, maxsteps=20000000, partial_sites=(n == 0),
                         bounds='n=%d strings of element size %d; characters of the first two and the last strings symbolic' % (n, es)))
     out.append(dict(name='bin_mess', src='h_eclbin.cpp', defs={'NELEM': 0}, entry='h_mess', tus=TUS, fp='real', loopmax=2000))
